@@ -5,7 +5,9 @@
 //! BOUND: hand-written erroneous programs (BOM / multi-byte prefixes, unfinished constructs, negated
 //! literals in key positions, unknown variant cases) + every example of /repo/examples truncated at
 //! every 29th byte (parse errors) + every example with each identifier occurrence replaced, one at
-//! a time, by an undefined name (analysis errors).
+//! a time, by an undefined name (analysis errors) and, one at a time, wrapped into a binary expression ending in a
+//! number / bool literal (type-mismatch diagnostics) + metadata texts longer than 64 bytes whose 64th byte falls on
+//! every offset inside a multi-byte character (size diagnostics).
 use std::collections::BTreeSet;
 
 fn witness(ob: &str, f: &str, input: String, observed: String, required: &str) {
@@ -86,6 +88,35 @@ fn main() {
         if check_parse_error(src, &format!("hand[{i}]")) { parse_cases += 1; }
         analysis_cases += check_analysis(src, &format!("hand[{i}]")) as u64;
     }
+    // metadata values beyond the 64-byte limit: ASCII, hex, and texts whose 64th / 65th byte falls inside a multi-byte char
+    for pad in 56..=66usize {
+        for tail in ["\u{e9}\u{e9}\u{e9}\u{e9}\u{e9}\u{e9}", "\u{20ac}\u{20ac}\u{20ac}\u{20ac}", "\u{1f600}\u{1f600}\u{1f600}", "abcdefghijkl"] {
+            let text = format!("{}{}", "x".repeat(pad), tail);
+            let src = format!("party A;\n// caf\u{e9}\ntx t() {{\n  input s {{ from: A, min_amount: Ada(1), }}\n  output {{ to: A, amount: s, }}\n  metadata {{ 1: \"{text}\", }}\n}}\n");
+            if check_parse_error(&src, &format!("metadata-text[{pad}]")) { parse_cases += 1; }
+            analysis_cases += check_analysis(&src, &format!("metadata-text[pad {pad}, tail {tail:?}]")) as u64;
+        }
+    }
+    for n in [63usize, 64, 65, 70, 100] {
+        let src = format!("party A;\ntx t() {{\n  input s {{ from: A, min_amount: Ada(1), }}\n  output {{ to: A, amount: s, }}\n  metadata {{ 1: 0x{}, }}\n}}\n", "ab".repeat(n));
+        analysis_cases += check_analysis(&src, &format!("metadata-hex[{n}]")) as u64;
+    }
+    // type mismatches on composite expressions (a positioned operand combined with a literal)
+    let mism = [
+        "party Alice;\nasset Bad = (Alice + 1).\"ABC\";\ntx t() { output { to: Alice, amount: Bad(1), } }\n",
+        "party Alice;\nasset Bad = (Alice - true).\"ABC\";\ntx t() { output { to: Alice, amount: Bad(1), } }\n",
+        "party A;\ntx t(q: Int) {\n  output { to: A + 1, amount: Ada(q), }\n}\n",
+        "party A;\ntx t(q: Bytes) {\n  output { to: A, amount: Ada(q + 1), }\n}\n",
+        "party A;\ntx t(q: Int) {\n  output { to: q - 1, amount: Ada(1), }\n}\n",
+        "party A;\ntx t(q: Int) {\n  input s { from: A - 1, min_amount: Ada(q), }\n  output { to: A, amount: s, }\n}\n",
+        "party A;\ntx t(q: Int) {\n  input s { from: A, min_amount: A + 1, }\n  output { to: A, amount: s, }\n}\n",
+        "party A;\ntx t(q: Int) {\n  output { to: A, amount: Ada(1), }\n  validity { since_slot: A + 1, }\n}\n",
+        "party A;\n// caf\u{e9}\ntx t(q: Int) {\n  output { to: A, amount: Ada(1), }\n  signers { q + 1, }\n}\n",
+    ];
+    for (i, src) in mism.iter().enumerate() {
+        if check_parse_error(src, &format!("mismatch[{i}]")) { parse_cases += 1; }
+        analysis_cases += check_analysis(src, &format!("mismatch[{i}]")) as u64;
+    }
     // examples of the repository (path relative to the scratch copy the crate's path dependencies point at)
     let dir = concat!(env!("CARGO_MANIFEST_DIR"), "/../../.cache/work/repo/examples");
     let mut files: Vec<_> = std::fs::read_dir(dir).map(|d| d.filter_map(|e| e.ok()).map(|e| e.path()).filter(|p| p.extension().map(|x| x == "tx3").unwrap_or(false)).collect()).unwrap_or_default();
@@ -119,6 +150,14 @@ fn main() {
                         let mutated = format!("{}zz_undefined_{}{}", &src[..st], k, &src[i..]);
                         if check_parse_error(&mutated, &format!("{name}#{k}")) { parse_cases += 1; }
                         analysis_cases += check_analysis(&mutated, &format!("{name}#{k}")) as u64;
+                    }
+                    if k % 2 == 0 {
+                        // the occurrence wrapped into a binary expression that ends in a literal: wherever that parses it is
+                        // either fine or a type mismatch on a composite expression
+                        for lit in ["1", "true"] {
+                            let mutated = format!("{}({} + {}){}", &src[..st], word, lit, &src[i..]);
+                            analysis_cases += check_analysis(&mutated, &format!("{name}#{k}+{lit}")) as u64;
+                        }
                     }
                 }
             } else {
